@@ -86,6 +86,8 @@ type Effects struct {
 	callees map[*ssa.Function][]*ssa.Function
 	summary map[*ssa.Function]map[string]bool
 	addrTaken map[string][]*ssa.Function // signature key -> repo functions used as values
+	dyn       map[*ssa.Function]map[*ssa.Function]bool // edges that exist only through signature matching of function values
+	cur       *ssa.Function
 }
 
 func (p *Prog) buildEffects() {
@@ -231,7 +233,21 @@ func rootAlloc(v ssa.Value) *ssa.Alloc {
 	}
 }
 
+func (e *Effects) markDyn(from, to *ssa.Function) {
+	if from == nil {
+		return
+	}
+	if e.dyn == nil {
+		e.dyn = map[*ssa.Function]map[*ssa.Function]bool{}
+	}
+	if e.dyn[from] == nil {
+		e.dyn[from] = map[*ssa.Function]bool{}
+	}
+	e.dyn[from][to] = true
+}
+
 func (e *Effects) scan(fn *ssa.Function) {
+	e.cur = fn
 	d := map[string]bool{}
 	e.direct[fn] = d
 	addCallee := func(c *ssa.Function) {
@@ -299,6 +315,7 @@ func (e *Effects) scanCall(fn *ssa.Function, ci ssa.CallInstruction, d map[strin
 	// dynamic call through a function value: every address-taken repo function of that signature
 	if sig, ok := c.Value.Type().Underlying().(*types.Signature); ok {
 		for _, f := range e.addrTaken[sigKey(sig)] {
+			e.markDyn(fn, f)
 			addCallee(f)
 		}
 	}
@@ -391,6 +408,7 @@ func (e *Effects) typeReach(t types.Type, depth int, d map[string]bool, addCalle
 		}
 	case *types.Signature:
 		for _, f := range e.addrTaken[sigKey(u)] {
+			e.markDyn(e.cur, f)
 			addCallee(f)
 		}
 	case *types.Struct:
@@ -472,7 +490,11 @@ func (e *Effects) callEffects(fn *ssa.Function, ci ssa.CallInstruction) []string
 	})
 	for _, c := range cs {
 		if s, ok := e.summary[c]; ok {
+			dynOnly := e.dyn[fn][c]
 			for k := range s {
+				if dynOnly && strings.HasPrefix(k, "G|") {
+					continue // see addGhostEffects
+				}
 				d[k] = true
 			}
 		} else if c.Blocks != nil && e.isRepoFn(c) {
@@ -678,6 +700,51 @@ func rootValue(v ssa.Value) ssa.Value {
 			}
 		default:
 			return v
+		}
+	}
+}
+
+// addGhostEffects: a function that (transitively) calls a function whose contract has ghost
+// effects may change those ghost variables; recorded as G|<name> keys in the summaries of all
+// transitive callers (the contracted function itself applies its effects explicitly).
+func (e *Effects) addGhostEffects(db *ContractDB) {
+	rev := map[*ssa.Function][]*ssa.Function{}
+	// Ghost bookkeeping is propagated along static calls, closures and interface dispatch to
+	// repository implementations, but NOT along calls of function values matched only by
+	// signature (callbacks, release functions): those are assumed not to perform the tracked
+	// operations on behalf of the caller (stated in the evidence).
+	for f, cs := range e.callees {
+		for _, c := range cs {
+			if e.dyn[f][c] {
+				continue
+			}
+			rev[c] = append(rev[c], f)
+		}
+	}
+	for _, fc := range db.FuncList {
+		if fc.Fn == nil || len(fc.Effects) == 0 {
+			continue
+		}
+		var keys []string
+		for _, ef := range fc.Effects {
+			keys = append(keys, "G|"+ef.Ghost)
+		}
+		seen := map[*ssa.Function]bool{fc.Fn: true}
+		stack := append([]*ssa.Function(nil), rev[fc.Fn]...)
+		for len(stack) > 0 {
+			f := stack[len(stack)-1]
+			stack = stack[:len(stack)-1]
+			if seen[f] {
+				continue
+			}
+			seen[f] = true
+			if e.summary[f] == nil {
+				e.summary[f] = map[string]bool{}
+			}
+			for _, k := range keys {
+				e.summary[f][k] = true
+			}
+			stack = append(stack, rev[f]...)
 		}
 	}
 }
